@@ -305,6 +305,11 @@ def feval(t, env, eng, depth=0):
         a = feval(t[3], env, eng, depth + 1)
         if a is None: return None
         if t[1] == 'not' and isinstance(a, bool): return not a
+        if t[1] == 'not' and isinstance(a, int):
+            from mir import INT_TYS
+            from sym import wrap_int
+            ty = t[2] if t[2] in INT_TYS else term_ty(t[3])
+            return wrap_int(ty, ~a) if ty in INT_TYS else None
         if t[1] == 'neg': return -a
         return None
     if k == 'cast':
